@@ -12,7 +12,12 @@ REC = re.compile(r"^@@REDO:([^:@]*):(-?\d+):([0-9.]+)@@ (.*)$")
 
 
 def mk_script(name, deps, lines, partial=False, recordlike=None, frag=None):
-    L = []
+    # every line carries the generation number of the build that printed it (file `gen`):
+    # a rebuild must show ITS lines, live and replayed, not those of the previous log
+    L = ["redo-ifchange gen", "G=$(cat gen)"]
+    lines = [l + "-g'$G'" for l in lines]
+    if frag:
+        frag = frag[:-1] + [frag[-1] + "-g'$G'"]
     half = len(lines) // 2
     if frag:
         # one line that reaches the log in several pieces, with pauses long enough for the follower to read each piece by itself
@@ -117,14 +122,32 @@ def one_project(bindir, r, jobs, with_recordlike, with_fragments=False):
         env = dict(pp.pr.env)
         for k in ("REDO_LOG", "REDO_PRETTY", "REDO_COLOR"):
             env.pop(k, None)
+        with open(os.path.join(pp.root, "gen"), "w") as f:
+            f.write("1\n")
         p = subprocess.run(["redo", "--no-pretty", "--no-color", "--no-status", "-j%d" % jobs, root], cwd=pp.root, env=env,
                            stdin=subprocess.DEVNULL, stdout=subprocess.PIPE, stderr=subprocess.PIPE, timeout=120, start_new_session=True)
         live = p.stderr.decode(errors="replace") + p.stdout.decode(errors="replace")
         q = subprocess.run(["redo-log", "-r", "--no-pretty", "--no-color", "--no-status", root], cwd=pp.root, env=env,
                            stdin=subprocess.DEVNULL, stdout=subprocess.PIPE, stderr=subprocess.PIPE, timeout=120, start_new_session=True)
         replay = q.stdout.decode(errors="replace")
-        return {"names": names, "deps": deps, "lines": lines, "partial": partial, "ghost": ghost, "rc": p.returncode, "rc_log": q.returncode,
-                "live": live, "replay": replay, "jobs": jobs, "replay_err": q.stderr.decode(errors="replace")[-300:]}
+        out = {"names": names, "deps": deps, "lines": {k: [l + "-g1" for l in v] for k, v in lines.items()}, "partial": partial, "ghost": ghost,
+               "rc": p.returncode, "rc_log": q.returncode,
+               "live": live, "replay": replay, "jobs": jobs, "replay_err": q.stderr.decode(errors="replace")[-300:]}
+        if not with_fragments and r.random() < 0.6:
+            # second generation: everything is rebuilt over existing logs
+            import time
+            time.sleep(0.02)
+            with open(os.path.join(pp.root, "gen"), "w") as f:
+                f.write("2\n")
+            p2 = subprocess.run(["redo", "--no-pretty", "--no-color", "--no-status", "-j%d" % jobs, root],
+                                cwd=pp.root, env=env,
+                                stdin=subprocess.DEVNULL, stdout=subprocess.PIPE, stderr=subprocess.PIPE, timeout=120, start_new_session=True)
+            q2 = subprocess.run(["redo-log", "-r", "--no-pretty", "--no-color", "--no-status", root], cwd=pp.root, env=env,
+                                stdin=subprocess.DEVNULL, stdout=subprocess.PIPE, stderr=subprocess.PIPE, timeout=120, start_new_session=True)
+            out["second"] = {"lines": {k: [l + "-g2" for l in v] for k, v in lines.items()}, "rc": p2.returncode,
+                             "live": p2.stderr.decode(errors="replace") + p2.stdout.decode(errors="replace"),
+                             "replay": q2.stdout.decode(errors="replace")}
+        return out
     finally:
         pp.close()
 
@@ -177,15 +200,19 @@ def special_cases(bindir, r):
 
 def check(x):
     bad = []
-    for which in ("live", "replay"):
-        attr, seq = attribute(x[which], x["names"])
+    gens = [("", x, x["lines"])]
+    if x.get("second"):
+        gens.append((" (rebuild over existing logs)", x["second"], x["second"]["lines"]))
+    for label, src, lines_ in gens:
+      for which in ("live", "replay"):
+        attr, seq = attribute(src[which], x["names"])
         for nm in x["names"]:
-            want = [l.rstrip() for l in x["lines"][nm]]
+            want = [l.rstrip() for l in lines_[nm]]
             got = [l.rstrip() for l in attr.get(nm, []) if l.startswith("L-")]
             # lines of nm that ended up under another target
             elsewhere = [(o, l) for o, ls in attr.items() if o != nm for l in ls if l.startswith("L-%s-" % nm)]
             if got != want or elsewhere:
-                bad.append({"stream": which, "target": nm, "expected": [w[:40] for w in want], "got": [g[:40] for g in got],
+                bad.append({"stream": which + label, "target": nm, "expected": [w[:40] for w in want], "got": [g[:40] for g in got],
                             "under_other_targets": [(o, l[:40]) for o, l in elsewhere][:3]})
     return bad
 
